@@ -74,14 +74,20 @@ func (q *qpsLimiter) stopTicker() {
 }
 
 func (q *qpsLimiter) updateToken() {
-	var v int32
-	v = atomic.LoadInt32(&q.tokens)
-	if v < 0 {
-		v = q.once
-	} else if v+q.once > q.limit {
-		v = q.limit
-	} else {
-		v = v + q.once
+	for {
+		var v int32
+		old := atomic.LoadInt32(&q.tokens)
+		v = old
+		if v < 0 {
+			v = q.once
+		} else if v+q.once > q.limit {
+			v = q.limit
+		} else {
+			v = v + q.once
+		}
+		// retry if tokens were taken in the meantime, so that they are not given back
+		if atomic.CompareAndSwapInt32(&q.tokens, old, v) {
+			return
+		}
 	}
-	atomic.StoreInt32(&q.tokens, v)
 }
